@@ -50,7 +50,7 @@ REAL = ["Recorder.init_state / compress / decompress", "LinearReconstructEveryK.
 STUB = ["values are random arrays, not PML interface fields", "init_state runs with jax.disable_jit() (same Python, primitive-by-primitive dispatch; one configuration per k is cross-checked against the normal dispatch)", "write and read loops are lax.scan over the real compress / decompress, several start values traced into one XLA program"]
 ASSUMPTIONS = [
     "saved steps are start, start+k, ... and the final step T-1 (so that every t >= start has two enclosing saved steps)",
-    "saved steps must be returned bit-exactly (also through a widening dtype conversion); interpolated steps within 32 ulp of the input dtype relative to the history maximum",
+    "saved steps must be returned bit-exactly (also through a widening dtype conversion); interpolated steps within 32 ulp of max(input dtype, float32) relative to the history maximum (the library's weight is a float32 quotient)",
     "interpolated reads are judged only in configurations whose saved steps all read back correctly (a wrong record is reported once, as saved_step_mismatch); "
     "second-run monitors fire only where the first run was right (a genuine stale-record leak)",
     "reads at t < start are outside the statement and not compared",
@@ -200,7 +200,11 @@ def execute(spec):
     reads_a = reverse + rand_order + restart
     read_kind = ["reverse"] * T + ["random"] * T + ["restart"] * len(restart)
     reads_b = reads_a  # same read schedule (and therefore the same XLA program) for the second run
-    eps = float(np.finfo(in_dt).eps)
+    eps_in = float(np.finfo(in_dt).eps)
+    # the library forms the interpolation weight as int32 / int32, i.e. in float32, whatever the record dtype is; the statement
+    # promises linear interpolation, not a weight in the record's precision, so the criterion is 32 ulp of max(input, float32)
+    # precision.  Reads that miss the input-precision bound are counted (probe_interpolation_beyond_input_precision), not failed.
+    eps = max(eps_in, float(np.finfo(np.float32).eps))
 
     def make_recorder(k, start):
         mods = []
@@ -330,6 +334,8 @@ def execute(spec):
                             if not np.isfinite(err):
                                 err = 1e300
                             pending.append(("resid", err))
+                            if 32 * eps_in < err <= 32 * eps:
+                                stats["probe_interpolation_beyond_input_precision"] = stats.get("probe_interpolation_beyond_input_precision", 0) + 1
                             if err > 32 * eps and run == 0:
                                 bad_first.add((nm, t))
                             if err > 32 * eps and (run == 0 or (nm, t) not in bad_first):
